@@ -6,6 +6,7 @@ toolchain go1.23.5
 
 require (
 	github.com/Ptt-official-app/go-pttbbs v0.0.0
+	github.com/sirupsen/logrus v1.9.3
 	golang.org/x/tools v0.29.0
 )
 
@@ -17,7 +18,6 @@ require (
 	github.com/mitchellh/mapstructure v1.5.0 // indirect
 	github.com/pelletier/go-toml/v2 v2.2.2 // indirect
 	github.com/sagikazarmark/slog-shim v0.1.0 // indirect
-	github.com/sirupsen/logrus v1.9.3 // indirect
 	github.com/spf13/afero v1.11.0 // indirect
 	github.com/spf13/cast v1.6.0 // indirect
 	github.com/spf13/pflag v1.0.5 // indirect
